@@ -69,8 +69,10 @@ func generate(prop, tier string, seed uint64, run int) *Scenario {
 	case "C08":
 		return genMix(prop, seed, run, mixOpts{lagfree: 0.3, apiChurn: 0.15, spellings: true, shapes: []int{1, 1, 1, 2, 3, 4, 0}, maxOps: 30, watchFiles: 0.4, worldTasks: 2})
 	case "C04":
-		if tier == "thorough" && run < enumTotal() {
-			return genAPIEnum(prop, seed, run)
+		// thorough tier: two of every three runs walk through the enumeration
+		// (813 615 sequences) until it is exhausted, the third samples
+		if tier == "thorough" && run%3 != 2 && (run/3)*2+run%3 < enumTotal() {
+			return genAPIEnum(prop, seed, run, (run/3)*2+run%3)
 		}
 		if pick < 70 {
 			return genAPI(prop, seed, run, tier)
